@@ -579,7 +579,11 @@ impl Rewriter {
           ),
           hir::TypeDefinitionMappings::Enum(hir_variants) => {
             let mut mir_variants = Vec::with_capacity(hir_variants.len());
-            let mut permit_unboxed_optimization = true;
+            // An enum without data-free variants is represented by its own struct type, which an
+            // unboxed payload of another struct type can never be cast to. Unboxing is only possible
+            // when the enum is represented as an arbitrary reference, i.e. it has a data-free variant.
+            let mut permit_unboxed_optimization =
+              hir_variants.iter().any(|(_, types)| types.is_empty());
             let mut already_unused_boxed_optimization = None;
             for (tag, (_, types)) in hir_variants.iter().enumerate() {
               if types.is_empty() {
